@@ -64,3 +64,128 @@ Lemma ex_final_state :
   frun root_env_022 [] (admission_ops Fixed Sock peer_1000) =
   [(TCtl, mkE 1000 1000 m600 false); (TDir, mkE 1000 1000 m700 true)].
 Proof. vm_compute. reflexivity. Qed.
+
+(* ------------------------------------------------------------------ whose requests reach msg_process *)
+Definition is_msg (ev : levent) : bool := match ev with EvMsg | EvMsgForeign => true | _ => false end.
+Definition nmsg (l : list levent) : nat := length (filter is_msg l).
+Definition is_peer_send (o : lop) : bool := match o with LPeerSend => true | _ => false end.
+Definition npeer_sends (l : list lop) : nat := length (filter is_peer_send l).
+
+Lemma nmsg_snoc l ev : nmsg (l ++ [ev]) = (nmsg l + (if is_msg ev then 1 else 0))%nat.
+Proof. unfold nmsg. rewrite filter_app, app_length. cbn [filter]. destruct (is_msg ev); reflexivity. Qed.
+
+Lemma lexec_nmsg en s o : foreign_blocked o = true ->
+  (nmsg (l_log (fst (lexec en s o))) <= nmsg (l_log s) + (if is_peer_send o then 1 else 0))%nat /\
+  (~ In EvMsgForeign (l_log s) -> ~ In EvMsgForeign (l_log (fst (lexec en s o)))).
+Proof.
+  intro Hb. destruct s as [f c lg].
+  destruct o as [| t m | t m | t u g | t | | u g | e | | | | tr filt | cb];
+    cbn [lexec l_fs l_chan l_log with_log with_fs fst is_peer_send];
+    try (destruct tr; [| destruct filt; [| discriminate Hb]]; cbn [negb andb]; rewrite ?andb_false_r);
+    repeat match goal with
+           | |- context [match lookup ?t ?g with _ => _ end] => destruct (lookup t g)
+           | |- context [if ?b then _ else _] => destruct b
+           end;
+    cbn [l_log fst with_log with_fs l_fs l_chan]; rewrite ?nmsg_snoc; cbn [is_msg];
+    (split; [lia | intros Hn Hin; try (apply in_app_or in Hin; destruct Hin as [Hin | [Hin | []]]; [| discriminate Hin]);
+                   exact (Hn Hin)]).
+Qed.
+
+Lemma lrun_nmsg en : forall l s, forallb foreign_blocked l = true ->
+  (nmsg (l_log (lrun en s l)) <= nmsg (l_log s) + npeer_sends l)%nat /\
+  (~ In EvMsgForeign (l_log s) -> ~ In EvMsgForeign (l_log (lrun en s l))).
+Proof.
+  induction l as [| o r IH]; intros s H.
+  - cbn. split; [lia | auto].
+  - cbn in H. apply andb_true_iff in H as [H1 H2]. cbn [lrun].
+    destruct (lexec_nmsg en s o H1) as [A1 A2]. destruct (IH (fst (lexec en s o)) H2) as [B1 B2].
+    split; [| auto]. unfold npeer_sends in *. cbn [filter]. destruct (is_peer_send o); cbn [length]; lia.
+Qed.
+
+(* any interleaving: if no foreign datagram can get through (shm, or the sender check is in place), msg_process is
+   never invoked for a request that the connection's own peer did not send, and it is invoked at most once per request
+   the peer did send *)
+Theorem own_peer_only_global : forall en l k,
+  forallb foreign_blocked (proj k l) = true ->
+  ~ In EvMsgForeign (l_log (run en w_empty l k)) /\
+  (nmsg (l_log (run en w_empty l k)) <= npeer_sends (proj k l))%nat.
+Proof.
+  intros en l k H. rewrite run_proj. destruct (lrun_nmsg en (proj k l) (w_empty k) H) as [A B].
+  split; [apply B; cbn; auto | exact A].
+Qed.
+
+(* the socket transport without the sender check: an accepted peer that sends nothing, one datagram of another
+   process, and msg_process runs *)
+Definition foreign_witness : list lop := admission_ops Fixed Sock peer_1000 ++ [LForeign Sock false].
+Lemma foreign_refuted :
+  In EvMsgForeign (l_log (lrun root_env_022 l_empty foreign_witness)) /\ npeer_sends foreign_witness = 0%nat /\
+  ~ In EvMsgForeign (l_log (lrun root_env_022 l_empty (admission_ops Fixed Sock peer_1000 ++ [LForeign Sock true]))) /\
+  ~ In EvMsgForeign (l_log (lrun root_env_022 l_empty (admission_ops Fixed Shm peer_1000 ++ [LForeign Shm false]))).
+Proof.
+  split; [vm_compute; tauto |]. split; [reflexivity |].
+  split; vm_compute; intuition discriminate.
+Qed.
+
+(* ------------------------------------------------------------------ a server that is not root *)
+Local Opaque N.land N.ldiff N.lor N.shiftr dirmode m600 m700 m770.
+
+Ltac eval_fs_nz t :=
+  eval lazy beta iota zeta delta
+       [fexec lexec l_fs l_chan l_log fst snd lookup set remove ftag_eqb tag_ix Nat.eqb with_fs with_log has_children
+        existsb child_tags is_some srv_may_chmod srv_may_chown srv_root srv c_uid c_gid umask
+        e_uid e_gid e_mode e_isdir] in t.
+Ltac walk_nz tac post :=
+  repeat match goal with
+         | |- check_all _ _ _ [] => apply check_all_nil; tac
+         | |- check_all _ _ _ (_ :: _) =>
+             apply check_all_cons;
+             [ tac
+             | match goal with
+               | |- check_all _ ?en (fexec ?en ?f ?o) _ =>
+                   let f' := eval_fs_nz (fexec en f o) in change (fexec en f o) with f'; post
+               end ]
+         end.
+
+(* a server that is NOT root, authorising ids that are its own (same-uid clients with the default authorisation, or
+   auth_set(-1, -1, mode)): chown changes nothing and succeeds; the full statement holds *)
+Lemma fixed_any_moment_one_nonroot : forall en tr p,
+  keep (a_uid (eff_auth p)) (c_uid (srv en)) = c_uid (srv en) ->
+  keep (a_gid (eff_auth p)) (c_gid (srv en)) = c_gid (srv en) ->
+  check_all (all_entries (permitted (srv en) (authorised p))) en [] (peer_script Fixed tr p).
+Proof.
+  intros en tr p Hu Hg. destruct en as [um [su sg]]. cbn [srv c_uid c_gid] in Hu, Hg.
+  unfold peer_script, admission_ops, authorised.
+  set (a := eff_auth p) in *.
+  destruct (p_decision p =? 0); destruct tr;
+    cbn [connect_ops ring_ops ctl_ops teardown_ops app];
+    walk_nz ltac:(unfold all_entries, permitted, private_to, handed_over, allowed; cbn [srv c_uid c_gid];
+                  repeat (first [apply Forall_nil | apply Forall_cons]); cbn [snd e_uid e_gid e_mode e_isdir];
+                  try first [ left; split; [reflexivity | solve_sub]
+                            | right; exists a; split; [reflexivity | split; [symmetry; exact Hu | split;
+                                [symmetry; exact Hg | solve_sub]]] ])
+            ltac:(rewrite ?Hu, ?Hg, ?Z.eqb_refl; cbn [orb andb]; rewrite ?orb_true_r; cbn [orb andb]).
+Qed.
+
+Theorem fixed_any_moment_nonroot_global : forall en tr (ps : nat -> peer) l,
+  (forall k, keep (a_uid (eff_auth (ps k))) (c_uid (srv en)) = c_uid (srv en) /\
+             keep (a_gid (eff_auth (ps k))) (c_gid (srv en)) = c_gid (srv en)) ->
+  (forall k, is_prefix (fsops (proj k l)) (peer_script Fixed tr (ps k))) ->
+  forall k t e, lookup t (l_fs (run en w_empty l k)) = Some e -> permitted (srv en) (authorised (ps k)) e.
+Proof.
+  intros en tr ps l Hown Hpre.
+  apply (any_moment_global (fun k => permitted (srv en) (authorised (ps k))) Fixed en tr ps); [| exact Hpre].
+  intro k. destruct (Hown k). apply fixed_any_moment_one_nonroot; assumption.
+Qed.
+
+(* a non-root server authorising somebody else: chown fails with EPERM, which the code ignores (ipc_setup.c "(void)chown",
+   ringbuffer.c qb_rb_chown "errno != EPERM", ipc_socket.c "ignore res"): the connection is accepted, the objects stay the
+   server's and get the authorised mode - with 0660 the SERVER's group can read and write them, which nobody
+   authorised; the authorised client itself cannot open them and its connect fails with EACCES *)
+Definition nonroot_env : env := mkEnv 18%N (mkC 500 500).
+Lemma nonroot_refuted :
+  all_prefixes_ok nonroot_env Fixed Shm peer_auth_other = false /\
+  lookup TReqD (frun nonroot_env [] (admission_ops Fixed Shm peer_auth_other)) = Some (mkE 500 500 432%N false) /\
+  connect_result Shm peer_auth_other (lrun nonroot_env l_empty (admission_ops Fixed Shm peer_auth_other)) = - ADM_EACCES /\
+  frun nonroot_env [] (peer_script Fixed Shm peer_auth_other) = [] /\
+  all_prefixes_ok nonroot_env Fixed Shm (mkP (mkC 500 500) (mkC 500 500) 0 None false) = true.
+Proof. vm_compute. repeat split. Qed.
